@@ -28,6 +28,7 @@ Every octet string has exactly one decomposition junk/packet/…/tail (theorems 
 checks the real code against it on its own (lossless oracle) before the result is compared with the model.
 """
 import random
+import zlib
 from collections import deque
 from typing import Any, Dict, Iterator, List, Optional, Sequence, Tuple
 
@@ -170,9 +171,30 @@ def _run(a, steps: List[Optional[bytes]]) -> Dict[str, Any]:
     returned: List[bytes] = []
     handed_out: List[Any] = []          # the very objects the calls returned, kept as a program keeps received packets
     packets, rest, rest_canon, rest_cmp, queue = [], [], [], [], []
+    # "feed": "reused_buffer" (ignored by the model, whose deque holds octet strings): the receiver has ONE receive
+    # buffer; a chunk that is parsed right away (the next step is a parser call) is received into that buffer
+    # (rx[:] = chunk, like recv_into) and the buffer itself is appended. Legal for a parser that takes the chunks out of
+    # the deque and leaves its own remainder there: after a call nothing in the deque may still be the caller's buffer.
+    # Chunks that stay pending over a further append get an object of their own, as in the default mode.
+    reuse = a.get("feed") == "reused_buffer"
+    rx = bytearray()
     for i, st in enumerate(steps):
         if st is not None:
-            q.append(bytearray(st))
+            if reuse and i + 1 < len(steps) and steps[i + 1] is None:
+                left = b"".join(bytes(c) for c in q)
+                try:
+                    rx[:] = st
+                except BufferError as e:
+                    raise SelfCheckFailure(f"the receive buffer appended for an earlier call can no longer be refilled after {len(packets)} "
+                                           f"parser calls ({e}): something the parser returned or left in the deque is a view of it")
+                now = b"".join(bytes(c) for c in q)
+                if now != left:
+                    raise SelfCheckFailure(f"after call {len(packets) - 1} the deque held {left.hex()[:200]}; it reads {now.hex()[:200]} once the "
+                                           f"receiver has refilled its receive buffer (the bytearray it had appended before that call) with the "
+                                           f"next chunk {bytes(st).hex()[:120]}: the deque still holds the caller's buffer")
+                q.append(rx)
+            else:
+                q.append(bytearray(st))
             fed.extend(st)
             continue
         out = parse_space_packets(q, pids) if i % 2 else parse_space_packets(analysis_queue=q, packet_ids=pids)
@@ -227,7 +249,8 @@ def op_sp_parse_buf(a):
     if "prior" in a:
         _prime(a)
     pids = _pids(a)
-    q = deque([bytearray(raw)])
+    chunk = bytearray(raw)
+    q = deque([chunk])
     objs = parse_space_packets(q, pids)
     out = [bytes(p) for p in objs]
     r = b"".join(bytes(c) for c in q)
@@ -239,6 +262,15 @@ def op_sp_parse_buf(a):
     _pids_untouched(a, pids)
     if objs:
         core.ISOLATION.check("C13.returned-packets", list(objs), _returned_view)
+    # the caller reuses the buffer it had appended (refills it in place): neither the packets handed out nor what the
+    # parser left in the deque for the next call are the caller's buffer
+    for pat in (bytes(b ^ 0xFF for b in raw), b"\xaa" * len(raw)):
+        chunk[:] = pat
+        out2, r2 = [bytes(p) for p in objs], b"".join(bytes(c) for c in q)
+        if out2 != out or r2 != r:
+            raise SelfCheckFailure(f"after the call returned {[p.hex()[:60] for p in out]} and left {r.hex()[:120]} in the deque, the caller "
+                                   f"overwrote the bytearray it had appended with {pat.hex()[:120]}: now the returned packets read "
+                                   f"{[p.hex()[:60] for p in out2]} and the deque holds {r2.hex()[:120]}")
     return {"packets": [p.hex() for p in out], "rest_cmp": (r if n_junk == 0 else canon(ids_raw, r)).hex(), "rest": r.hex(),
             "rest_canon": canon(ids_raw, r).hex()}
 
@@ -346,7 +378,7 @@ class Stream:
             pos += len(p)
         return sorted(m for m in pool if 0 < m < len(self.data))
 
-    def case_cut_at(self, positions: Sequence[int], tag: str) -> Case:
+    def case_cut_at(self, positions: Sequence[int], tag: str, feed: Optional[bool] = None) -> Case:
         """chunks ending at the given positions, a parser call after every chunk (explicit schedule: the cut mask of a
         stream of thousands of octets would be a number of thousands of bits)"""
         steps: List[Optional[bytes]] = []
@@ -354,7 +386,7 @@ class Stream:
         for hi in list(positions) + [len(self.data)]:
             steps += [self.data[lo:hi], None]
             lo = hi
-        return self.case_run(steps, tag)
+        return self.case_run(steps, tag, feed)
 
     def wf(self) -> bool:
         """the hypotheses of C13_lossless for the decomposition this stream was BUILT with, evaluated by the harness
@@ -380,12 +412,24 @@ class Stream:
             op["prior"] = [[list(t) for t in ids] for ids in self.prior]
         return op
 
-    def case_cuts(self, cuts: int, parses: int, tag: str) -> Case:
+    def _fed(self, op: Dict[str, Any], tag: str, feed: Optional[bool], salt: bytes) -> str:
+        """how the receiver hands the chunks over (see _run): feed=True through ONE reused receive buffer, False a new
+        bytearray per chunk, None = one or the other, decided by the schedule itself (half of the histories each way)"""
+        if feed is None:
+            feed = bool(zlib.crc32(salt) & 1)
+        if feed:
+            op["feed"] = "reused_buffer"
+            return tag + "+rxbuf"
+        return tag
+
+    def case_cuts(self, cuts: int, parses: int, tag: str, feed: Optional[bool] = None) -> Case:
         op = {"op": "sp_parse_cuts", "ids": [list(t) for t in self.ids], "stream": self.data.hex(), "cuts": cuts, "parses": parses}
+        tag = self._fed(op, tag, feed, b"%x:%x" % (cuts, parses))
         return Case(self._op(op), "valid", tag=self.tag(tag), keys=CMP)
 
-    def case_run(self, steps: List[Optional[bytes]], tag: str) -> Case:
+    def case_run(self, steps: List[Optional[bytes]], tag: str, feed: Optional[bool] = None) -> Case:
         op = {"op": "sp_parse_run", "ids": [list(t) for t in self.ids], "steps": [None if s is None else s.hex() for s in steps]}
+        tag = self._fed(op, tag, feed, bytes((0 if st is None else 1 + len(st) % 250) for st in steps))
         return Case(self._op(op), "valid", tag=self.tag(tag), keys=CMP)
 
     def case_buf(self, tag: str) -> Case:
@@ -479,6 +523,9 @@ class C13(Prop):
         for k in range(min(n - 1, 64)):
             yield Case(dict({"op": "sp_parse_cuts", "ids": o["ids"], "stream": data, "cuts": 1 << k, "parses": 1}, **extra), "valid",
                        tag="neighbour", keys=CMP)
+        for k in range(min(n - 1, 64)):
+            yield Case(dict({"op": "sp_parse_cuts", "ids": o["ids"], "stream": data, "cuts": 1 << k, "parses": 1,
+                             "feed": "reused_buffer"}, **extra), "valid", tag="neighbour+rxbuf", keys=CMP)
 
     # ----------------------------------------------------------------------------------------
     def cases(self, rng: random.Random, tier: str) -> Iterator[Case]:
@@ -490,10 +537,16 @@ class C13(Prop):
         for dl in (0, 1, 3):
             s = mk_stream(rng, ids0, [dl], [0], 0, None, versions=False)
             for k in range(len(s.data) - 1):
-                yield s.case_cuts(1 << k, 1, "single-cut")
+                # (both ways of handing the chunks over: a new bytearray per chunk / ONE reused receive buffer; a cut
+                #  inside the 6-octet primary header leaves fewer than 6 octets pending in an otherwise empty deque)
+                yield s.case_cuts(1 << k, 1, "single-cut", feed=False)
+                yield s.case_cuts(1 << k, 1, "single-cut", feed=True)
             for tc in (1, 3, 5, 6, 7):
                 s2 = mk_stream(rng, ids0, [dl], [0], 0, tc, versions=False)
-                yield s2.case_cuts(0, 0, "packet+tail")
+                yield s2.case_cuts(0, 0, "packet+tail", feed=False)
+                for k in sorted({0, 2, 4, 5, 6, len(s2.data) - len(s2.tail) - 1, len(s2.data) - 2}):
+                    if 0 <= k <= len(s2.data) - 2:
+                        yield s2.case_cuts(1 << k, 1, "packet+tail", feed=True)
 
         # --- explicit schedules: calls on an empty deque, empty chunks, repeated calls, appends after the last call
         s = mk_stream(rng, ids0, [1, 0], [0, 0], 0, 5)
@@ -509,7 +562,8 @@ class C13(Prop):
             steps: List[Optional[bytes]] = []
             for x in st.data:
                 steps += [bytes([x]), None]
-            yield st.case_run(steps, "explicit-octet-by-octet")
+            yield st.case_run(steps, "explicit-octet-by-octet", feed=False)
+            yield st.case_run(steps, "explicit-octet-by-octet", feed=True)
         yield Case({"op": "sp_parse_run", "ids": [], "steps": [None, rbytes(rng, 20).hex(), None, rbytes(rng, 3).hex(), None]}, "valid",
                    tag="no-ids", keys=CMP)
 
@@ -557,7 +611,8 @@ class C13(Prop):
             for k in range(0, (5 if thorough else 3) + 1):
                 for pos in itertools.combinations(range(n - 1), k):
                     cuts = sum(1 << q for q in pos)
-                    yield s.case_cuts(cuts, (1 << 8) - 1, "three-packets-few-cuts")
+                    yield s.case_cuts(cuts, (1 << 8) - 1, "three-packets-few-cuts", feed=False)
+                    yield s.case_cuts(cuts, (1 << 8) - 1, "three-packets-few-cuts", feed=True)
 
         # --- first header word: all 65 536 values against three registered IDs ----------------------------------
         ids3 = ID_SETS[3]
